@@ -20,15 +20,21 @@ Accepts(r, v)  == Nullable(Residual(r, v))
 Order(u)   == IF u = "@metadata" THEN <<>> ELSE DeclOrder(RulesJson[u].l[2])
 NoDuplicateNames(u) == \A i, j \in 1..Len(Order(u)) : Order(u)[i] = Order(u)[j] => i = j   \* precondition of the statement
 Rank(u, a) == CHOOSE i \in 1..Len(Order(u)) : Order(u)[i] = a
-Sorted(u, v) == \A i, j \in 1..Len(v) : i < j => Rank(u, v[i]) <= Rank(u, v[j])
+Sorted(u, v) == \A i \in 1..(Len(v) - 1) : Rank(u, v[i]) <= Rank(u, v[i + 1])        \* adjacent pairs suffice (<= is transitive)
 Ins(v, i, c) == SubSeq(v, 1, i) \o <<c>> \o SubSeq(v, i + 1, Len(v))      \* insert at 0-based index i
 Names(u) == Alphabet(StrictOf(u))
 
 Acceptable(u, v, c) ==
   IF c \notin Names(u) THEN {}            \* refused with the child-not-allowed rule error
   ELSE LET S == StrictOf(u)  L == Lenient(S) IN
-       {i \in 0..Len(v) : /\ (Sorted(u, v) => Sorted(u, Ins(v, i, c)))
-                          /\ ((\E j \in 0..Len(v) : Accepts(S, Ins(v, j, c))) => Accepts(L, Ins(v, i, c)))}
+       \* the two premises are evaluated ONCE (TLC does not cache LET definitions): hoisted into IF-THEN-ELSE
+       IF Sorted(u, v)
+       THEN (IF \E j \in 0..Len(v) : Accepts(S, Ins(v, j, c))
+             THEN {i \in 0..Len(v) : Sorted(u, Ins(v, i, c)) /\ Accepts(L, Ins(v, i, c))}
+             ELSE {i \in 0..Len(v) : Sorted(u, Ins(v, i, c))})
+       ELSE (IF \E j \in 0..Len(v) : Accepts(S, Ins(v, j, c))
+             THEN {i \in 0..Len(v) : Accepts(L, Ins(v, i, c))}
+             ELSE 0..Len(v))
 
 RankIndex(u, v, c) == LET cand == {i \in 1..Len(v) : Rank(u, v[i]) > Rank(u, c)} IN
                       IF cand = {} THEN Len(v) ELSE (CHOOSE i \in cand : \A j \in cand : i <= j) - 1
